@@ -310,7 +310,7 @@ func TestVerifC13(t *testing.T) {
 	}
 
 	// Part 2: PRNG
-	total := c.Share(c.Pick(200000, 1500000))
+	total := c.Share(c.Pick(600000, 2500000))
 	const rb = 500
 	for i := 0; i < total; i += rb {
 		n := caseNo
